@@ -234,6 +234,37 @@ func rulesC09(w *World, r *Report) {
 			r.Violate("C09.R2", funcName(f)+":skeleton", w.pos(f.Pos()), msg)
 		} else {
 			ruleVerdict(w, r, "C09.R2", a, sk, true)
+			// the two files compared are the two files named: the source is read at (SrcBase, srcRelPath), the
+			// destination at (DestBase, destRelPath)
+			{
+				bad := ""
+				n := 0
+				eachInstr2 := func(g *ssa.Function) {
+					for _, c := range callsIn(g) {
+						if c.Common().StaticCallee() != a.readWhisperFile || len(c.Common().Args) < 2 {
+							continue
+						}
+						n++
+						ex := newExprCtx(w)
+						base, rel := ex.expr(c.Common().Args[0]), ex.expr(c.Common().Args[1])
+						switch base {
+						case "p0.SrcBase":
+							if rel != "p1" {
+								bad = "the source is read at " + rel + ", not at the source path it was given"
+							}
+						case "p0.DestBase":
+							if rel != "p2" {
+								bad = "the destination is read at " + rel + " (" + w.instrPos(c) + "), not at the destination path it was given"
+							}
+						}
+					}
+				}
+				eachInstr2(f)
+				for _, g := range f.AnonFuncs {
+					eachInstr2(g)
+				}
+				r.Check(bad == "" && n >= 2, "C09.R2", "DiffCommand.diffOneFile:reads-named-files", w.pos(f.Pos()), "source read at (SrcBase, srcRelPath), destination at (DestBase, destRelPath)", "diffOneFile: "+bad+": with -dest naming another file than -src the named destination is never looked at — a differing or missing destination is reported clean")
+			}
 			ruleOneClock(w, r, "C08.R3", a, sk)
 			ruleUntilDefault(w, r, "C08.R3", f, []*ssa.Function{a.readWhisperFile, a.sumWhisperFile})
 			ruleParseWindowCheck(w, r, "C08.R3", "DiffCommand")
@@ -1155,6 +1186,58 @@ func rulesC10(w *World, r *Report) {
 					ex.expr(as[2]) == "p0[0][p1].step" && as[3] == ssa.Value(acc)
 				r.Check(okNT, "C10.R4", "sumTimeSeriesListForArchive:result", w.instrPos(c), "the sum carries file 0's window/step and the accumulator", "the summed series does not carry file 0's (from, until, step) and the accumulated values")
 			}
+		}
+	}
+	// every matched file gets a worker and a slot of its own: the loop that starts the readers runs over the very list
+	// whose length sizes the header and series lists (reading a sub-list with indexes of its own lets later batches
+	// overwrite the slots of the first and leaves the rest empty)
+	if sl := fn(w.Cmd, "sumWhisperFileLocal"); sl != nil {
+		// (by canonical expression: a list captured by a closure is a variable loaded afresh at each use)
+		sizedBy := map[string]bool{}
+		eachInstr(sl, func(in ssa.Instruction) {
+			if mk, ok := in.(*ssa.MakeSlice); ok {
+				if lc, isC := mk.Len.(*ssa.Call); isC {
+					if bi, isB := lc.Common().Value.(*ssa.Builtin); isB && bi.Name() == "len" {
+						sizedBy[newExprCtx(w).expr(lc.Common().Args[0])] = true
+					}
+				}
+			}
+		})
+		bad := ""
+		n := 0
+		for _, c := range callsIn(sl) {
+			if !isMethodCall(c, "golang.org/x/sync/errgroup", "Group", "Go") || !inLoopWith(c.Block()) {
+				continue
+			}
+			n++
+			// the innermost loop around the Go call: its bound
+			var header *ssa.BasicBlock
+			for b := c.Block(); b != nil; b = b.Idom() {
+				if isLoopHeader(b) {
+					header = b
+					break
+				}
+			}
+			okB := false
+			if header != nil && len(header.Instrs) > 0 {
+				if iff, isIf := header.Instrs[len(header.Instrs)-1].(*ssa.If); isIf {
+					if bo, isBo := iff.Cond.(*ssa.BinOp); isBo {
+						for _, side := range []ssa.Value{bo.X, bo.Y} {
+							if lc, isC := side.(*ssa.Call); isC {
+								if bi, isB := lc.Common().Value.(*ssa.Builtin); isB && bi.Name() == "len" && sizedBy[newExprCtx(w).expr(lc.Common().Args[0])] {
+									okB = true
+								}
+							}
+						}
+					}
+				}
+			}
+			if !okB {
+				bad = "the loop that starts the readers (" + w.instrPos(c) + ") does not run over the list of matched files itself"
+			}
+		}
+		if n > 0 {
+			r.Check(bad == "", "C10.R2", "sumWhisperFileLocal:workers-cover-all-files", w.pos(sl.Pos()), "one reader per matched file, indexed like the result lists", "sumWhisperFileLocal: "+bad+": slots of the header and series lists stay empty (a nil header is dereferenced) or are overwritten")
 		}
 	}
 	// the list of sums is indexed by archive id, like the lists it is built from
